@@ -514,6 +514,12 @@ def judge_file_response(V, r, tail, rec, fired, versions, scn, *, last, conn_clo
             # length framing: the body is the bytes of a file as they are (compression removes the Content-Length)
             bm = best(body) if (served_ok and cands) else len(body)
             sp = _swallow_point(body, bm) if bm < len(body) else None
+            if sp is None and bm < len(body) and inplace_after_open:
+                # the body may mix two versions of a file rewritten in place while it was read, so the content match
+                # ends early; the head of the following response inside the declared length still shows a short body
+                # (the files hold random bytes: a chance "HTTP/1." in them is a 2**-56 event per position)
+                q_ = body.find(b"HTTP/1.", bm)
+                sp = q_ if q_ >= 0 else None
             if sp is not None:
                 bm = sp
                 V.add("declared_length_is_carried", f"short_body:fileresponse:{phase}",
